@@ -1,11 +1,20 @@
 #!/bin/bash
 # clean-tree false-alarm sweep: every registered check, several seeds; prints only runs that did not exit 0
+# PAR=n runs n seeds side by side (default 1)
 cd "$(dirname "$0")/.."
 TIER=${TIER:-quick}
-for s in "$@"; do
+one_seed() {
+  s=$1
   for p in $(python3 -c "import json;print(' '.join(c['property_id'] for c in json.load(open('MANIFEST.json'))['checks']))"); do
     out=$(VERIF_SEED=$s ./check $p --tier $TIER --no-lean 2>/dev/null | grep -v "^KNOWN-FINDING" | tail -3)
     case "$out" in *"exit 0") ;; *) echo "SEED $s $p: $out" | cut -c1-600;; esac
   done
   echo "seed $s done"
-done
+}
+export -f one_seed
+export TIER
+if [ "${PAR:-1}" -gt 1 ]; then
+  printf '%s\n' "$@" | xargs -P "$PAR" -I{} bash -c 'one_seed {}'
+else
+  for s in "$@"; do one_seed $s; done
+fi
